@@ -102,7 +102,7 @@ func (bq *Queue[Q]) Run() {
 			// The chain moved forward using elements from other sources (consensus).
 			for i := lastHeight; i < h; i++ {
 				old := bq.indexToPosition(i + 1)
-				if bq.queue[old] != bq.nilQ && bq.queue[old].GetIndex() == i {
+				if bq.queue[old] != bq.nilQ && bq.queue[old].GetIndex() == i+1 {
 					bq.len--
 					bq.queue[old] = bq.nilQ
 				}
@@ -176,7 +176,9 @@ func (bq *Queue[Q]) Put(element Q) error {
 	pos := bq.indexToPosition(element.GetIndex())
 	// If we already have it, keep the old element, throw away the new one.
 	if bq.queue[pos] == bq.nilQ || bq.queue[pos].GetIndex() < element.GetIndex() {
-		bq.len++
+		if bq.queue[pos] == bq.nilQ { // Otherwise it's a replacement of a stale element.
+			bq.len++
+		}
 		bq.queue[pos] = element
 		for pos < bq.cacheSize && bq.queue[pos] != bq.nilQ && bq.lastQ+1 == bq.queue[pos].GetIndex() {
 			bq.lastQ = bq.queue[pos].GetIndex()
